@@ -17,6 +17,8 @@ import ASV.Proofs.ProtoRingFinal
 import ASV.Proofs.ProtoRingSup
 import ASV.Proofs.ProtoExtendRing
 import ASV.Proofs.ProtoRingWide
+import ASV.Proofs.ProtoRingMerge
+import ASV.Proofs.ProtoExtendTotal
 namespace ASV.C03
 open ASV ASV.Rules ASV.Proto ASV.Chains ASV.ChainSweep
 
@@ -376,6 +378,51 @@ theorem protoclusters_of_rule_ring_wide_partial (r : Rec) (hcirc : r.circular = 
   simp only [clustersOfRule, hfind, bind, Except.bind]
   exact hpcs
 
+/-- **`merge_over_origin` leaves the wide-arc protoclusters alone** — so `protoclusters_of_rule_ring_wide_partial`
+    speaks about what comes out of the merge stage as well: for anchoring genes in a wide arc of a circular
+    record, the protoclusters of the rule are formed as stated there, and `merge_over_origin` applied to them
+    returns exactly these protoclusters (a permutation: it sorts them by the start of the cutoff-widened core). -/
+theorem merge_is_identity_ring_wide_partial (r : Rec) (hcirc : r.circular = true) (rules : List RuleM) (rule : RuleM)
+    (hfind : findRule rules rule.name = .ok rule) (A B : Int)
+    (harc : WideArc r.len rule.cutoff A B) (hn : 0 ≤ rule.nbhd)
+    (anchors : List Gene) (hne : (r.genes.filter fun g => anchors.contains g.id) ≠ [])
+    (hok : ∀ g ∈ r.genes, anchors.contains g.id = true → GeneIn r.len A B g.loc) :
+    ∃ (pcs merged : List PC),
+      clustersOfRule r rule anchors = .ok pcs ∧
+      Proto.mergeOverOrigin r rules pcs = .ok merged ∧ merged.Perm pcs := by
+  obtain ⟨groups, pcs, hpcs, hpart, hpaired⟩ :=
+    protoclusters_of_rule_ring_wide_partial r hcirc rule A B harc hn anchors hne hok
+  have hok' : ∀ l ∈ (r.genes.filter fun g => anchors.contains g.id).map (·.loc), GeneIn r.len A B l := by
+    intro l hl
+    obtain ⟨g, hg, rfl⟩ := List.mem_map.1 hl
+    simp only [List.mem_filter] at hg
+    exact hok g hg.1 hg.2
+  have hgroup : ∀ g ∈ groups, ∀ m ∈ g, GeneIn r.len A B m := by
+    intro g hg m hm
+    apply hok'
+    rw [← hpart.perm.mem_iff]
+    simp only [List.mem_flatten]
+    exact ⟨g, hg, hm⟩
+  -- every core is a single span inside the arc
+  have hin : ∀ pc ∈ pcs, CoreIn A B rule.name pc := by
+    intro pc hpc
+    obtain ⟨g, hg, hname, p, hp, hcov, ⟨m1, hm1, e1⟩, ⟨m2, hm2, e2⟩, _⟩ := Proto.Paired.forall_left hpaired pc hpc
+    have a1 := (hgroup g hg m1 hm1).lo
+    have a2 := (hgroup g hg m1 hm1).ok.start_lt_end
+    have a3 := (hgroup g hg m2 hm2).hi
+    have a4 := (hcov m1 hm1).2
+    exact ⟨hname, p, hp, by omega, by omega, by omega⟩
+  -- and the cores are at least the cutoff apart
+  obtain ⟨cores, hcores, hapart⟩ := cores_apart_ring_wide_partial r hcirc rule.cutoff A B harc _ (by simpa using hne) hok'
+  have hc2 := clustersOfRule_cores r rule anchors pcs hpcs
+  rw [hcores] at hc2
+  simp only [Except.ok.injEq] at hc2
+  subst hc2
+  rw [List.pairwise_map] at hapart
+  obtain ⟨merged, hm, hperm⟩ := mergeOverOrigin_id_wide r hcirc rules rule hfind A B harc pcs hin
+    (hapart.imp (fun h => Or.inl h))
+  exact ⟨pcs, merged, hpcs, hm, hperm⟩
+
 /-- **Chains are never split, on any circular record** (`_partial` with respect to `CoresAreChainsRing`:
     this is its "maximal" half, without any restriction on positions, origin-spanning anchors or chain
     lengths; the "each core is one chain and the smallest span of it" half is proved only under
@@ -575,6 +622,19 @@ theorem extenders_ring_partial (within : Lookup) (r : Rec) (hcirc : r.circular =
       RingArea r.len pc'.core ∧ Covers pc'.core pc.core ∧ ∀ g ∈ back ++ forw, Covers pc'.core g.loc :=
   extendCluster_ring within r hcirc hL rules hgenes pc pc' d harea hsub rule hrule hext h
 
+/-- **EXTENDERS on a ring: the call returns** (`_partial`: all genes of the circular record lie in a wide arc
+    for the rule's cutoff, the core is a single span of that arc, and the lookup finds at least one gene
+    inside the core) — `apply_extenders` then returns for the protocluster: no `ValueError`, no failed
+    assertion, no `IndexError`; together with `extenders_ring_partial` this gives what it returns.  Still open:
+    totality when genes or the core lie across the origin (two-part cores). -/
+theorem extenders_ring_total_wide_partial (within : Lookup) (r : Rec) (hcirc : r.circular = true) (rules : List RuleM)
+    (pc : PC) (rule : RuleM) (hrule : findRule rules pc.rule = .ok rule) (hn : 0 ≤ rule.nbhd) (A B : Int)
+    (harc : WideArc r.len rule.cutoff A B) (hgenes : ∀ g ∈ r.genes, GeneIn r.len A B g.loc)
+    (p : Part) (hcore : pc.core = .simple p) (h0 : A ≤ p.lo) (h1 : p.lo < p.hi) (h2 : p.hi ≤ B)
+    (hne : within pc.core false ≠ []) :
+    ∃ pc' d, extendCluster within r rules pc = .ok (pc', d) :=
+  extendCluster_total_wide within r hcirc rules pc rule hrule hn A B harc hgenes p hcore h0 h1 h2 hne
+
 /-- **Superiors: exact characterisation of the implementation.**  Whenever the redundancy test of a
     protocluster `pc` returns, it returns `true` exactly when, for one of the superiors of `pc`'s rule,
     some protocluster `o` of that superior either has a core containing `pc`'s core, or its first/last
@@ -714,6 +774,19 @@ def wideRec : Rec := ⟨100, true,
 example : WideArc wideRec.len 20 0 40 := ⟨by decide, by decide, by decide, by decide, by decide⟩
 example : (match findCores wideRec 20 (wideRec.genes.map (·.loc)) with
     | .ok cores => cores.map (fun c => (c.start, c.end)) == [(0, 35)]
+    | .error _ => false) = true := by decide +kernel
+/-- the hypotheses of `extenders_ring_total_wide_partial` on that ring: both genes lie in the wide arc -/
+example : ∀ g ∈ wideRec.genes, GeneIn wideRec.len 0 40 g.loc := by
+  intro g hg
+  simp only [wideRec, List.mem_cons, List.mem_nil_iff, or_false] at hg
+  rcases hg with rfl | rfl <;>
+    exact ⟨⟨by simp [Loc.parts], by simp [bridgesOrigin], by intro p hp; simp [Loc.parts] at hp; subst hp; simp [wideRec]⟩,
+      by simp [Loc.start], by simp [Loc.end]⟩
+/-- on that ring with cutoff 15 (two chains) `merge_over_origin` returns the two protoclusters unchanged -/
+example : (match clustersOfRule wideRec ⟨"r", 15, 3, .group false [.single false "a"], [], none⟩ [0, 1] with
+    | .ok pcs => (match Proto.mergeOverOrigin wideRec [⟨"r", 15, 3, .group false [.single false "a"], [], none⟩] pcs with
+        | .ok merged => merged == pcs && pcs.length == 2
+        | .error _ => false)
     | .error _ => false) = true := by decide +kernel
 example : (match findCores wideRec 15 (wideRec.genes.map (·.loc)) with
     | .ok cores => cores.map (fun c => (c.start, c.end)) == [(0, 10), (25, 35)]
